@@ -17,7 +17,7 @@ impl Prop for C19 {
 
     fn profiles(tier: Tier) -> Vec<Profile> {
         match tier {
-            Tier::Quick => vec![prof("sim", 6_000), prof("pps", 3_000)],
+            Tier::Quick => vec![prof("sim", 18_000), prof("pps", 9_000)],
             Tier::Thorough => vec![prof("sim", 250_000), prof("pps", 120_000)],
         }
     }
